@@ -19,7 +19,7 @@ pub static DEF: PropDef = PropDef {
     assumptions: &["byte-level mutations are not used: the adapter cannot change the 4 GB default limit and a misaligned parse could legitimately allocate gigabytes per worker", "inputs whose limited pre-screen (16 MiB) reports InvalidTagSize are skipped: the adapter cannot change the 4 GB default limit and a legitimate GB allocation per worker would exhaust the box", "zero-length reads in the middle of the data are not injected: Ok(0) means end of stream for an AsyncRead"],
     cases_quick: 60_000,
     cases_thorough: 800_000,
-    floors: &[("schedules_compared", 20_000), ("non_starved_schedules", 8_000), ("stream_adapter_runs", 3_000), ("distinct_nontrivial", 60), ("exhaustive_partition_inputs", 20), ("inputs_over_64k", 3), ("default_limit_probes", 20)],
+    floors: &[("schedules_compared", 20_000), ("non_starved_schedules", 8_000), ("stream_adapter_runs", 3_000), ("distinct_nontrivial", 60), ("exhaustive_partition_inputs", 20), ("inputs_over_64k", 3), ("default_limit_probes", 20), ("async_io_fault_probes", 300)],
     exhaustive_note: Some("all 2^(n-1) partitions of inputs of <= 8 (quick) / <= 10 (thorough) bytes"),
     run,
 };
@@ -168,6 +168,73 @@ fn run_limit_probe(c: &mut Case) {
     c.nontrivial(mix(hash_str("limit-probe"), v));
 }
 
+/// A failing asynchronous source: the whole (small) input arrives with the first read, the k-th read (k >= 1) fails with a
+/// unique error. The blocking iterator over the same bytes gives the reference items; the adapter performs one read per
+/// `next()`, so it must hand out the first k of them and then the source's error as `ReadError` carrying it (C05's clause,
+/// for the adapter) — an adapter that swallows the error, ends quietly or loses items breaks "the item sequence of the
+/// blocking iterator over the same bytes".  Kinds a reader may legitimately retry (Interrupted, WouldBlock) are not used.
+fn run_io_fault_probe(c: &mut Case) {
+    let mut m = Mix::MOSTLY_VALID;
+    m.small = true;
+    m.mutated = 0;
+    let inp = gen_input(&mut c.rng, c.tier, &m);
+    inp.spec.install();
+    if inp.bytes.len() > 60_000 {
+        c.count("vacuous_io_fault_input_too_long");
+        return;
+    }
+    let base = parse_slice(&inp.bytes, &RCfg { allow: 0, buffered: vec![], capacity: None, max_size: MaxSz::Default, eof_end: true });
+    if base.items.len() < 2 {
+        c.count("vacuous_io_fault_too_few_items");
+        return;
+    }
+    let k = c.rng.urange(1, base.items.len() - 1);
+    let kind = *c.rng.pick(&[std::io::ErrorKind::Other, std::io::ErrorKind::TimedOut, std::io::ErrorKind::ConnectionReset, std::io::ErrorKind::BrokenPipe, std::io::ErrorKind::PermissionDenied, std::io::ErrorKind::UnexpectedEof]);
+    let msg = format!("verif-async-io-#{}-{}", k, c.rng.below(1 << 30));
+    let pending_every = *c.rng.pick(&[0usize, 0, 2, 3]);
+    let src = ScriptedAsyncRead::new(ScriptedRead::new(inp.bytes.clone()).with_fault(k, kind, msg.clone()), pending_every);
+    let mut it: TagIteratorAsync<ScriptedAsyncRead, DynTag> = TagIteratorAsync::new(src, &[]);
+    let mut items = Vec::new();
+    let mut end = Ev::None;
+    let r = guard(1 << 26, || {
+        futures::executor::block_on(async {
+            for _ in 0..(base.items.len() + 4) {
+                match it.next().await {
+                    None => break,
+                    Some(Ok(t)) => items.push((Item::from_tag(&t), it.last_emitted_tag_offset())),
+                    Some(Err(e)) => {
+                        end = Ev::Err(ErrRec::from(&e));
+                        break;
+                    }
+                }
+            }
+        })
+    });
+    if let Err(cg) = r {
+        end = Ev::Caught(cg);
+    }
+    c.eval();
+    c.count("async_io_fault_probes");
+    let want = ErrRec::Read { kind: format!("{:?}", kind), msg: msg.clone() };
+    let what = if let Ev::Caught(cg) = &end {
+        Some(format!("{}", cg.sig()))
+    } else if items[..] != base.items[..k.min(base.items.len())] {
+        Some("items-before-the-error-differ".to_string())
+    } else if end != Ev::Err(want.clone()) {
+        Some(format!("error-not-surfaced/{}", match &end { Ev::Err(e) => e.kind().to_string(), Ev::None => "ended-quietly".into(), _ => "?".into() }))
+    } else {
+        None
+    };
+    if let Some(w) = what {
+        c.violation(
+            format!("C20/io-fault/{}", w),
+            format!("source fails at read #{} with {:?} ({}): the adapter yielded {} items and ended {}; the blocking iterator yields {} items over these bytes", k, kind, msg, items.len(), end.short(), base.items.len()),
+            inp.to_json().set("fault_at_read", J::u(k as u64)).set("blocking", base.to_json(12)).set("async_items", J::Arr(items.iter().map(|(i, o)| J::s(format!("{}@{}", i.short(), o))).collect())).set("async_end", J::s(end.short())),
+        );
+    }
+    c.nontrivial(mix(hash_str("io-fault"), mix(k.min(6) as u64, pending_every as u64)));
+}
+
 /// Documents laid out against the 64 KiB transfer buffer: a few small items, then one big Binary element whose end
 /// (or, for a trailing unknown-size master, the end of the input) falls on 65536*k + d for small k and d in -2..=1.
 /// Whether a schedule is starved is still decided by the gated replay with nominal 64 KiB reads; these documents only
@@ -221,6 +288,10 @@ fn gen_window_doc(rng: &mut crate::prng::Rng) -> Input {
 fn run(c: &mut Case) {
     if c.idx % 500 == 77 {
         run_limit_probe(c);
+        return;
+    }
+    if c.idx % 40 == 13 {
+        run_io_fault_probe(c);
         return;
     }
     let big = c.rng.chance(1, 400) || (c.tier == Tier::Thorough && c.rng.chance(1, 2000));
